@@ -160,32 +160,31 @@ class Engine:
                     return True
         return False
 
+    def _reader_callees_of_read(self):
+        q = f"{self.reader_cls}.read"
+        return [c for c in self.res.callees(q) if c.startswith(self.reader_cls + ".")]
+
     @cached_property
     def frame_assembler(self) -> str:
-        q = f"{self.reader_cls}.read"
-        c = self._callee_under_guard(q, lambda t: self._mentions_const(t, "rtcmreader", b"\xd3"))
-        return self._one("frame assembler", [x for x in c if x.startswith(self.reader_cls)])
+        """Reader method called from `read` that invokes the static parser."""
+        parse = f"{self.reader_cls}.parse"
+        c = [q for q in self._reader_callees_of_read() if parse in self.res.callees(q)]
+        return self._one("frame assembler", c)
 
     @cached_property
     def ubx_skipper(self) -> str:
-        q = f"{self.reader_cls}.read"
-        c = self._callee_under_guard(q, lambda t: self._mentions_const(t, "rtcmreader", b"\xb5\x62"))
-        return self._one("UBX skipper", [x for x in c if x.startswith(self.reader_cls)])
+        """Reader method called from `read`, other than the assembler, that consumes through the read primitive."""
+        c = [q for q in self._reader_callees_of_read()
+             if q not in (self.frame_assembler, self.read_primitive, self.line_primitive, self.error_dispatcher)
+             and self.read_primitive in self.res.callees(q) and not self.repo.funcs[q].is_property]
+        return self._one("UBX skipper", c)
 
     @cached_property
     def nmea_skipper(self) -> str:
-        q = f"{self.reader_cls}.read"
-
-        def pred(t):
-            for n in ast.walk(t):
-                if isinstance(n, ast.Name):
-                    v = self.const_of("rtcmreader", n)
-                    if isinstance(v, (list, tuple, set)) and v and all(isinstance(x, bytes) and x[:1] == b"$" for x in v):
-                        return True
-            return False
-
-        c = self._callee_under_guard(q, pred)
-        return self._one("NMEA skipper", [x for x in c if x.startswith(self.reader_cls)])
+        c = [q for q in self._reader_callees_of_read()
+             if q not in (self.frame_assembler, self.read_primitive, self.line_primitive, self.error_dispatcher)
+             and self.line_primitive in self.res.callees(q) and not self.repo.funcs[q].is_property]
+        return self._one("NMEA skipper", c)
 
     @cached_property
     def error_dispatcher(self) -> str:
